@@ -5,7 +5,6 @@ package main
 import (
 	"encoding/json"
 	"flag"
-	"fmt"
 	"regexp/syntax"
 	"strconv"
 	"strings"
@@ -100,7 +99,7 @@ func dumpSimpleLF(y coqx.Syn, s *logql_parser.SimpleLabelFilter) string {
 	if s.NumVal != "" {
 		v, err := strconv.ParseFloat(s.NumVal, 64)
 		if err == nil {
-			num = y.Some(y.Pair(y.Str(s.NumVal), y.Str(fmt.Sprintf("%f", v))))
+			num = y.Some(y.Pair(y.Str(s.NumVal), y.Str(floatValText(v))))
 		}
 	}
 	return y.Rec("slf_label", y.Str(s.Label.Name), "slf_fn", fn, "slf_str", str, "slf_num", num)
@@ -213,6 +212,16 @@ func dumpCtx(y coqx.Syn, c Ctx, pc *shared.PlannerContext) string {
 		"c_cluster", y.Bool(c.Cluster), "c_type", y.Z(int64(c.Type)), "c_finalize", "true", "c_step_ns", y.Z(c.StepMs*1000000),
 		"t_gin", y.Str(pc.TimeSeriesGinTableName), "t_samples", y.Str(pc.SamplesTableName), "t_ts", y.Str(pc.TimeSeriesTableName),
 		"t_ts_dist", y.Str(pc.TimeSeriesDistTableName), "t_m15", y.Str(pc.Metrics15sTableName))
+}
+
+// floatValText is the text sql.FloatVal prints for v (oracle value carried in the dumped AST): taken from the
+// real object, so that the model follows the code whatever float format it uses
+func floatValText(v float64) string {
+	s, err := sql.NewFloatVal(v).String(&sql.Ctx{Params: map[string]sql.SQLObject{}, Result: map[string]sql.SQLObject{}})
+	if err != nil {
+		panic(err)
+	}
+	return s
 }
 
 // ---------------------------------------------------------------- run one case
